@@ -509,6 +509,37 @@ class Model:
       cons.append(s2[k] == z3.If(sched == -1, s[k], newv[k]))
     return cons, anyen
 
+  def _private_nodes(self):
+    """For every player p: labels of nodes that read and write nothing but T_p.* / pc_p (they commute with every node of
+    another player).  Computed from the node's own guard/effect/successor terms on a dummy state."""
+    import re
+    dummy = self.mk_state(9999)
+    def names(e):
+      out, todo, seen = set(), [e], set()
+      while todo:
+        x = todo.pop()
+        if x.get_id() in seen: continue
+        seen.add(x.get_id())
+        if z3.is_const(x) and x.decl().kind() == z3.Z3_OP_UNINTERPRETED: out.add(x.decl().name())
+        todo.extend(x.children())
+      return out
+    priv = {}
+    for th, prog in self.progs.items():
+      if th == MAIN: continue
+      p = th - 1
+      ok = set()
+      for lab, (g, e, n) in prog.nodes.items():
+        upd = e(dummy)
+        touched = set()
+        for k, v in upd.items():
+          touched.add(k); touched |= {x.split("@")[0] for x in names(v)}
+        touched |= {x.split("@")[0] for x in names(g(dummy))} | {x.split("@")[0] for x in names(n(dummy))}
+        touched = {x for x in touched if "@" not in x or True}
+        allowed = lambda x: x.startswith("T%d." % p) or x == "pc%d" % th or re.match(r"^(L\d+|wait)$", x)
+        if all(allowed(x) for x in touched): ok.add(lab)
+      priv[th] = ok
+    return priv
+
   def unroll(self, K, preempt=None):
     """preempt = C bounds the number of pre-emptions (a switch away from a thread that could still move)."""
     states = [self.mk_state(t) for t in range(K + 1)]
@@ -519,6 +550,16 @@ class Model:
       c, anyen = self.step(states[t], states[t + 1], sched[t])
       cons += c
       anyens.append(anyen)
+    if self.P >= 2 and getattr(self, "por", True):
+      # partial-order reduction: two consecutive steps of *different players* that are both private commute, so only
+      # the order "lower player first" is explored
+      priv = self._private_nodes()
+      for t in range(K - 1):
+        for a in range(2, self.P + 1):
+          for b in range(1, a):
+            pa = z3.Or(*[states[t]["pc%d" % a] == l for l in priv[a]]) if priv[a] else z3.BoolVal(False)
+            pb = z3.Or(*[states[t + 1]["pc%d" % b] == l for l in priv[b]]) if priv[b] else z3.BoolVal(False)
+            cons.append(z3.Not(z3.And(sched[t] == a, sched[t + 1] == b, pa, pb)))
     if preempt is not None:
       terms = []
       for t in range(K - 1):
